@@ -182,7 +182,7 @@ static void c14_type(Reporter& R, const std::string& name, uint64_t id) {
     if (M <= 400) {
       for (size_t i = 0; i < M && ok; ++i) for (size_t j = 0; j < M && ok; ++j) ok = check_pair(i, j);
     } else {
-      const long long np = g_args->n("pairs", g_args->thorough() ? 200000 : 20000);
+      const long long np = g_args->n("pairs", g_args->thorough() ? 2000000 : 20000);
       for (long long k = 0; k < np && ok; ++k) {
         const size_t i = rng.below(M);
         // half of the pairs come from the same family (neighbours in generation order): ties in leading slots
@@ -192,7 +192,7 @@ static void c14_type(Reporter& R, const std::string& name, uint64_t id) {
     }
     if (!ok) return;
     // transitivity on the library's own operators
-    const long long nt = g_args->n("triples", g_args->thorough() ? 200000 : 10000);
+    const long long nt = g_args->n("triples", g_args->thorough() ? 1000000 : 10000);
     for (long long k = 0; k < nt; ++k) {
       const X &a = objs[rng.below(M)], &b = objs[rng.below(M)], &c = objs[rng.below(M)];
       R.eval();
@@ -303,7 +303,7 @@ static void c16_pair(Reporter& R, const std::string& name, uint64_t id) {
   if constexpr (has_ctor || has_assign) {
     constexpr bool direction = is_direction<Q1>::value;
     Rng rng(mix(mix(g_args->seed, 0xC16), mix(id, Num<T1>::idx * 3 + Num<T2>::idx)));
-    const int reps = static_cast<int>(g_args->n("values", g_args->thorough() ? 2000 : 200));
+    const int reps = static_cast<int>(g_args->n("values", g_args->thorough() ? 20000 : 200));
     R.crumb(key);
     guarded(R, key, [&] {
       for (int rep = 0; rep < reps; ++rep) {
@@ -366,7 +366,9 @@ static void c16_pair(Reporter& R, const std::string& name, uint64_t id) {
           const auto sb = V1::arr(back);
           R.eval();
           for (size_t i = 0; i < N; ++i) {
-            const bool ok = direction ? ulps<T1>(sb[i], static_cast<f128>(s1[i])) <= 2.0 : same_value_bits(sb[i], s1[i]);
+            // directions are re-normalised by each of the two conversions (two ulps each, at the scale of the unit vector)
+            const bool ok = direction ? static_cast<double>(fabsq(static_cast<f128>(sb[i]) - static_cast<f128>(s1[i])) / ulp_at<T1>(1.0Q)) <= 4.0
+                                      : same_value_bits(sb[i], s1[i]);
             if (!ok) {
               R.violation(key + "|widen-then-narrow", J().s("type", name).s("conversion", pair).i("slot", i).raw("source", jarr(s1)).raw("back", jarr(sb)).str());
               return;
@@ -431,7 +433,7 @@ static void c17_type(Reporter& R, const std::string& name, uint64_t id) {
   if constexpr (sizeof(Q) == N * sizeof(T) && std::is_trivially_copyable_v<Q>) {
     Rng rng(mix(mix(g_args->seed, 0xC17), mix(id, Num<T>::idx)));
     guarded(R, key, [&] {
-      const int reps = static_cast<int>(g_args->n("probes", g_args->thorough() ? 400 : 100));
+      const int reps = static_cast<int>(g_args->n("probes", g_args->thorough() ? 4000 : 100));
       for (int rep = 0; rep < reps; ++rep) {
         // (b) no constructor leaves a slot unwritten, and slot i lives at byte offset i*sizeof(T)
         alignas(16) unsigned char buf[sizeof(Q)];
@@ -555,7 +557,7 @@ static void c17_component(Reporter& R, const std::string& key, const char* comp,
 template <typename T>
 static void c17_shapes(Reporter& R, uint64_t id) {
   Rng rng(mix(mix(g_args->seed, 0xC175), mix(id, Num<T>::idx)));
-  const int reps = static_cast<int>(g_args->n("probes", g_args->thorough() ? 400 : 100));
+  const int reps = static_cast<int>(g_args->n("probes", g_args->thorough() ? 4000 : 100));
   using PV = PhQ::PlanarVector<T>;
   using VV = PhQ::Vector<T>;
   using SD = PhQ::SymmetricDyad<T>;
